@@ -449,6 +449,9 @@ func (f Filter) Accept(ctx context.Context, pgmut *sync.Mutex, pg wpg.Conn, d an
 		}
 		frs.add(res)
 	case string:
+		if len(f.Arg) == 0 {
+			return fmt.Errorf("filter on string requires filter_arg")
+		}
 		switch f.Op {
 		case "contains":
 			frs.add(slices.Contains(f.Arg, v))
@@ -460,6 +463,9 @@ func (f Filter) Accept(ctx context.Context, pgmut *sync.Mutex, pg wpg.Conn, d an
 			frs.add(v != f.Arg[0])
 		}
 	case uint64:
+		if len(f.Arg) == 0 {
+			return fmt.Errorf("filter on integer requires filter_arg")
+		}
 		i, err := strconv.ParseUint(f.Arg[0], 10, 64)
 		if err != nil {
 			return fmt.Errorf("unable to convert filter arg to int: %q", f.Arg[0])
@@ -475,6 +481,9 @@ func (f Filter) Accept(ctx context.Context, pgmut *sync.Mutex, pg wpg.Conn, d an
 			frs.add(v < i)
 		}
 	case *uint256.Int:
+		if len(f.Arg) == 0 {
+			return fmt.Errorf("filter on integer requires filter_arg")
+		}
 		i := &uint256.Int{}
 		if err := i.SetFromDecimal(f.Arg[0]); err != nil {
 			return fmt.Errorf("unable to convert filter arg dec to uint256: %q", f.Arg[0])
